@@ -16,7 +16,7 @@
    REJECTED by the constructor (AssertionError for an unmatched folder record, AttributeError for an unclosed group),
    so the property is vacuous there.  Documents whose layers live in a Lr16 / Lr32 block are outside (that block is
    an opaque payload in the container model). *)
-From PsdV Require Import Base.Prelude Psd.Codec Psd.Model Psd.Corr Psd.Leaf Psd.Resave.
+From PsdV Require Import Base.Prelude Psd.Codec Psd.Model Psd.Leaf Psd.Resave.
 From PsdV Require Tree.Forest Tree.Build Tree.BuildProofs.
 From Coq Require Import ZArith List Bool Lia.
 Import ListNotations.
